@@ -267,6 +267,15 @@ func main() {
 	distinctOutcome := map[string]bool{}
 
 	slowReplies := 0
+	// a tree on which many inputs wedge would cost 32 s per input: after six confirmed wedges the confirmation wait shrinks
+	// (verdicts are taken over TCP later anyway), and after forty the enumeration stops early
+	hangsSeen := 0
+	confirmWait := func() time.Duration {
+		if hangsSeen >= 6 {
+			return 4 * time.Second
+		}
+		return 30 * time.Second
+	}
 	run := func(argv [][]byte, bound time.Duration) (impl.Reply, bool) {
 		ch := make(chan impl.Reply, 1)
 		go func() { ch <- srv.ExecConn(argv, conn) }()
@@ -280,7 +289,8 @@ func main() {
 		case r := <-ch:
 			slowReplies++
 			return r, true
-		case <-time.After(30 * time.Second):
+		case <-time.After(confirmWait()):
+			hangsSeen++
 			return impl.Reply{}, false
 		}
 	}
@@ -306,7 +316,7 @@ func main() {
 
 	one := func(argv [][]byte, source string) {
 		idx++
-		if idx <= *from {
+		if idx <= *from || hangsSeen >= 40 {
 			return
 		}
 		if prog != nil {
@@ -452,7 +462,7 @@ func main() {
 	out.Flush()
 	sum := map[string]interface{}{"inputs": idx, "enum_inputs": nEnum, "mutation_inputs": idx - nEnum, "executed": executed,
 		"skipped_blocking": skippedBlocking, "anomalies": anomalies, "names": len(names), "tokens": len(tokens),
-		"valid_commands": len(valid), "distinct_outcome_classes": len(distinctOutcome), "anomaly_sites": sites, "slow_replies_not_wedged": slowReplies}
+		"valid_commands": len(valid), "distinct_outcome_classes": len(distinctOutcome), "anomaly_sites": sites, "slow_replies_not_wedged": slowReplies, "wedged_inputs": hangsSeen, "stopped_early_after_40_wedges": hangsSeen >= 40}
 	b, _ := json.Marshal(sum)
 	fmt.Println("SUMMARY " + string(b))
 }
